@@ -1379,6 +1379,8 @@ def _compare_main(case, res, replies):
         for i, (a, b) in enumerate(zip(impl, replies[0]["r"])):
             if a != b:
                 return f"to_string #{i}: impl {a} vs model {b!r}"
+        if replies[0].get("j") != replies[0]["r"]:
+            return "Lean jTokens (Val.toJ v) differs from toStringE v"
         # the model's notion of equal dictionaries (pyEq, proved equivalent to DictEq) against Python's
         vs = [dec(w) for w in case["vs"] if modelable(w)]
         for i, row in enumerate(replies[1]["r"]):
